@@ -107,7 +107,8 @@ def strat_load(draw, tier):
     return {"buffer": buf, "w": w, "map": amap, "miss": miss,
             "second": second,
             "app_id": draw(st.sampled_from([66, 1, 255, 30])),
-            "wait": draw(st.sampled_from([False, False, True, None])),
+            # the flag is also given the way C-minded callers give it (0 / 1)
+            "wait": draw(st.sampled_from([False, False, True, None, 0, 1])),
             "n_tries": n_tries, "use_count": use_count, "pre": pre,
             "style": draw(st.sampled_from(["map", "map", "pair",
                                            "context"]))}
